@@ -1064,3 +1064,31 @@ func scribbleElem(e reflect.Value, spare bool) {
 		}
 	}
 }
+
+// Constants records the values of the exported named constants of the package (packet types, feedback formats,
+// SDES item types, XR block types, ECN code points, TWCC symbols): the names are part of the interface, and the
+// numbers behind them are assigned by the RFCs.
+func (s *State) Constants() V {
+	out := V{
+		"TypeSenderReport": int(rtcp.TypeSenderReport), "TypeReceiverReport": int(rtcp.TypeReceiverReport),
+		"TypeSourceDescription": int(rtcp.TypeSourceDescription), "TypeGoodbye": int(rtcp.TypeGoodbye),
+		"TypeApplicationDefined": int(rtcp.TypeApplicationDefined), "TypeTransportSpecificFeedback": int(rtcp.TypeTransportSpecificFeedback),
+		"TypePayloadSpecificFeedback": int(rtcp.TypePayloadSpecificFeedback), "TypeExtendedReport": int(rtcp.TypeExtendedReport),
+		"FormatSLI": int(rtcp.FormatSLI), "FormatPLI": int(rtcp.FormatPLI), "FormatFIR": int(rtcp.FormatFIR), "FormatTLN": int(rtcp.FormatTLN),
+		"FormatRRR": int(rtcp.FormatRRR), "FormatCCFB": int(rtcp.FormatCCFB), "FormatREMB": int(rtcp.FormatREMB), "FormatTCC": int(rtcp.FormatTCC),
+		"ECNNonECT": int(rtcp.ECNNonECT), "ECNECT1": int(rtcp.ECNECT1), "ECNECT0": int(rtcp.ECNECT0), "ECNCE": int(rtcp.ECNCE),
+		"SDESEnd": int(rtcp.SDESEnd), "SDESCNAME": int(rtcp.SDESCNAME), "SDESName": int(rtcp.SDESName), "SDESEmail": int(rtcp.SDESEmail),
+		"SDESPhone": int(rtcp.SDESPhone), "SDESLocation": int(rtcp.SDESLocation), "SDESTool": int(rtcp.SDESTool), "SDESNote": int(rtcp.SDESNote),
+		"SDESPrivate":            int(rtcp.SDESPrivate),
+		"LossRLEReportBlockType": int(rtcp.LossRLEReportBlockType), "DuplicateRLEReportBlockType": int(rtcp.DuplicateRLEReportBlockType),
+		"PacketReceiptTimesReportBlockType": int(rtcp.PacketReceiptTimesReportBlockType), "ReceiverReferenceTimeReportBlockType": int(rtcp.ReceiverReferenceTimeReportBlockType),
+		"DLRRReportBlockType": int(rtcp.DLRRReportBlockType), "StatisticsSummaryReportBlockType": int(rtcp.StatisticsSummaryReportBlockType),
+		"VoIPMetricsReportBlockType": int(rtcp.VoIPMetricsReportBlockType),
+		"ToHMissing":                 int(rtcp.ToHMissing), "ToHIPv4": int(rtcp.ToHIPv4), "ToHIPv6": int(rtcp.ToHIPv6),
+		"TypeTCCRunLengthChunk": int(rtcp.TypeTCCRunLengthChunk), "TypeTCCStatusVectorChunk": int(rtcp.TypeTCCStatusVectorChunk),
+		"TypeTCCPacketNotReceived": int(rtcp.TypeTCCPacketNotReceived), "TypeTCCPacketReceivedSmallDelta": int(rtcp.TypeTCCPacketReceivedSmallDelta),
+		"TypeTCCPacketReceivedLargeDelta": int(rtcp.TypeTCCPacketReceivedLargeDelta), "TypeTCCPacketReceivedWithoutDelta": int(rtcp.TypeTCCPacketReceivedWithoutDelta),
+		"TypeTCCSymbolSizeOneBit": int(rtcp.TypeTCCSymbolSizeOneBit), "TypeTCCSymbolSizeTwoBit": int(rtcp.TypeTCCSymbolSizeTwoBit),
+	}
+	return s.emit(V{"op": "consts", "h": 0, "out": out})
+}
